@@ -414,9 +414,16 @@ CHECKS["C16"] = dict(
           "create-radius with coincident, near-miss, collinear and crossing placements through the real femmcli; after every "
           "operation: snap rule of added points, points apart, lines / arcs join two distinct existing points, no duplicates, "
           "no proper crossing of two lines (exact arithmetic), no point inside a line, no label on a point or line, deletions "
-          "never change what a survivor joins, nothing left selected after selection-consuming operations. Known finding: a "
-          "line drawn through an existing block label leaves the label on the line."),
-    design_ref="DESIGN.md section 3, C16",
+          "never change what a survivor joins, nothing left selected after selection-consuming operations; after a rebuilding "
+          "operation no two points closer than the snap tolerance of the drawing; arcs cross arcs and lines only at points; "
+          "copies of arcs land at the transformed coordinates in the right sense; the arc made by create-radius inherits "
+          "boundary property and group. The point maps of the copy commands are Model/EditGeom.lean (CComplex operators in "
+          "the order of mirrorCopy / rotateCopy / translateCopy): proved over any ordered field that a reflection reverses "
+          "orientation (so the mirror copy of an arc must swap its end points - repaired defect) and that reflection, rotation "
+          "and translation keep distances; its Float instance is compared bit for bit with the end points of copied arcs in "
+          "saved drawings. Known findings: a line drawn through an existing block label leaves the label on the line; two "
+          "histories on drawings with many crossing arcs (duplicate line after scale, unsplit point next to the end of a line)."),
+    design_ref="DESIGN.md section 3, C16 and section 0.9",
     technique="Lean 4 proof (list / index renumbering invariants by induction over the deletion scan, witness refuting the toggle variant, property stated for the variant translated from the C++) + translator + model-vs-femmcli correspondence on delete operations + exact-arithmetic drawing invariants after every operation of random edit sequences",
 )
 
